@@ -232,7 +232,18 @@ def materialise(spec):
              f"        return REC({body})\n", ns)
         target = ns["K"]()
     else:
-        _exec(f"class K:\n    'doc of K'\n{attr_ann}    def __init__({param_src(spec, True)}):\n        'doc of init'\n"
+        # every second class has its __init__ under an ordinary metadata-preserving decorator (functools.wraps: tracing, retry, ...):
+        # inspect.signature follows __wrapped__, the class is wrapped like any other
+        import functools
+
+        def traced(fn):
+            @functools.wraps(fn)
+            def inner(*a, **k):
+                return fn(*a, **k)
+            return inner
+        ns["traced"] = traced
+        deco = "    @traced\n" if len(names) % 2 == 1 else ""
+        _exec(f"class K:\n    'doc of K'\n{attr_ann}{deco}    def __init__({param_src(spec, True)}):\n        'doc of init'\n"
              f"        self.rec = REC({body})\n", ns)
         target = ns["K"]
 
